@@ -449,10 +449,10 @@ func (pnmd PoorNetworkManagementDecorator) AnteHandle(ctx sdk.Context, tx sdk.Tx
 				return ctx, errorsmod.Wrap(sdkerrors.ErrInvalidRequest, "only restricted amount send is allowed on poor network")
 			}
 			// TODO: we could do restriction to send only when target account does not exist on chain yet for more restriction
-			return next(ctx, tx, simulate)
+			continue
 		}
 		if findString(pnmsgs.Messages, kiratypes.MsgType(msg)) >= 0 {
-			return next(ctx, tx, simulate)
+			continue
 		}
 		return ctx, errorsmod.Wrap(sdkerrors.ErrInvalidRequest, "invalid transaction type on poor network")
 	}
